@@ -392,9 +392,6 @@ def main():
 
     # 2. aggregate
     agg = aggregate(results)
-    if agg['probes'].get('load_hit', 0) == 0:
-        print('HARNESS-FAILURE no cache hit in the whole batch: the workload does not exercise the cache')
-        return core.EXIT_HARNESS
 
     # 3. violations: one per distinct signature, lowest run index first; minimise, replay, classify
     known, fixed = core.load_known()
@@ -438,6 +435,11 @@ def main():
         print('violation %s (run %d; minimised %s -> %s)' % (mv['signature'], r['run_index'], doc['minimised_from'], doc['minimised_to']))
         print(json.dumps(mv['detail'], default=str)[:1200])
         print('VIOLATION property=%s replay=%s' % (PROP, path))
+
+    if exit_code == core.EXIT_HELD and agg['probes'].get('load_hit', 0) == 0:
+        # a cache that never hits satisfies C18 vacuously; a batch without a single hit says nothing
+        print('HARNESS-FAILURE no cache hit in the whole batch: the workload does not exercise the cache')
+        return core.EXIT_HARNESS
 
     # 4. the E2 cache-history slice ("using the cache never changes the emitted GIR")
     slice_info = None
